@@ -260,4 +260,39 @@ Proof.
   - intros v c ig. apply parse_section_streq. exact Hb.
 Qed.
 
+(* ---- the transformation family and its compositions ------------------------------------- *)
+(* one presentation-only change of a text:
+   - white space at line ends / line terminators (any lines, anywhere: padding, CRLF <-> LF,
+     final newline);
+   - blank and '#' lines inserted at any sites of header and data blocks;
+   - generally: corresponding blocks that their consumers cannot tell apart. *)
+Inductive pres_step : list N -> list N -> Prop :=
+| ps_ws t t' : Forall2 streq (lines_keep t) (lines_keep t') -> pres_step t t'
+| ps_skip t t' pre pre' bs bs' :
+    lines_keep t = pre ++ render bs -> lines_keep t' = pre' ++ render bs' ->
+    notitles pre -> notitles pre' -> Forall wf_block bs -> Forall2 skip_ins_block bs bs' ->
+    pres_step t t'
+| ps_blocks t t' pre pre' bs bs' :
+    lines_keep t = pre ++ render bs -> lines_keep t' = pre' ++ render bs' ->
+    notitles pre -> notitles pre' -> Forall wf_block bs -> Forall wf_block bs' ->
+    Forall2 block_equiv bs bs' -> pres_step t t'.
+
+Theorem pres_step_read o t t' : pres_step t t' ->
+  read fhex fstr numeq o t = read fhex fstr numeq o t'.
+Proof.
+  intros [t1 t2 H|t1 t2 pre pre' bs bs' E E' Hp Hp' Hb H|t1 t2 pre pre' bs bs' E E' Hp Hp' Hb Hb' H].
+  - apply read_streq. exact H.
+  - symmetry. apply (read_ins_skipped o t1 t2 pre pre' bs bs'); assumption.
+  - apply (read_blocks_congr o t1 t2 pre bs pre' bs'); assumption.
+Qed.
+
+(* any finite composition, each change applied in either direction *)
+Theorem pres_chain_read o t t' : chain _ pres_step t t' ->
+  read fhex fstr numeq o t = read fhex fstr numeq o t'.
+Proof. apply chain_inv. intros x y H. apply pres_step_read. exact H. Qed.
+
+Theorem pres_path_read o t mids t' : path _ pres_step t mids t' ->
+  read fhex fstr numeq o t = read fhex fstr numeq o t'.
+Proof. apply path_inv. intros x y H. apply pres_step_read. exact H. Qed.
+
 End WithOracles.
